@@ -500,6 +500,8 @@ class MarkdownNormalizer(Renderer):
     def render_thematic_break(self, _element: block.ThematicBreak) -> str:
         result = f"{self._prefix}* * *\n"
         self._prefix = self._second_prefix
+        # After a thematic break, don't suppress the next item break (as for code and quotes)
+        self._suppress_item_break = False
         return result
 
     def render_heading(self, element: block.Heading) -> str:
